@@ -39,7 +39,7 @@ def run_shard(tier, seed, idx, n, res, tmp):
     obs = coverage.RaiseObserver()
     obs.start()
     try:
-        for ci in range(idx, b['models'], n):
+        for ci in common.case_range(idx, b['models'], n, res):
             cs = common.case_seed(PROPERTY, seed, ci)
             rnd = random.Random(cs)
             m = gm.generate(cs, profile())
